@@ -28,35 +28,36 @@ type session struct {
 	parent  uint64 // hash of the image a level-2 session grew from
 	lost    []lrec // records the first life wrote but the image does not hold
 
-	armed    bool // crash points enabled
-	opIdx    int
-	opKind   string
-	opSyncs  int
-	point    int
-	pending  []*image
-	nWalSegs int
+	armed     bool // crash points enabled
+	opIdx     int
+	opKind    string
+	opSyncs   int
+	point     int
+	pending   []*image
+	nWalSegs  int
 	lastOpCut bool
 }
 
 type image struct {
-	root     string
-	level    int
-	point    int
-	kind     string // before | after | between
-	opIdx    int
-	opKind   string
-	file     string
+	root      string
+	level     int
+	point     int
+	kind      string // before | after | between
+	opIdx     int
+	opKind    string
+	file      string
 	firstSync bool
-	wlen     int
-	d        int
-	done     int
-	doneSnap uint64
-	nDirty   int
-	nLost    int
-	lostDesc string
-	torn     bool
-	inCut    bool
-	hash     uint64
+	wlen      int
+	d         int
+	done      int
+	doneSnap  uint64
+	nDirty    int
+	nLost     int
+	lostDesc  string
+	torn      bool
+	inCut     bool
+	stale     bool // a lost sector reverts to old bytes that are not all zero
+	hash      uint64
 }
 
 func (s *session) walSegs() int {
@@ -224,6 +225,9 @@ func (s *session) takeImages(kind string, permille int, file string) {
 		for i, l := range lost {
 			if l {
 				img.nLost++
+				if f := &files[refs[i].file]; !allZero(f.old[refs[i].sec*sector : min((refs[i].sec+1)*sector, len(f.old))]) {
+					img.stale = true
+				}
 				h = core.Mix(h, uint64(refs[i].file), uint64(refs[i].sec))
 				if lostBy[refs[i].file] == nil {
 					lostBy[refs[i].file] = map[int]bool{}
